@@ -1451,8 +1451,9 @@ def main(argv=None):
     ahead = ThreadPoolExecutor(1)
     first_runs = ahead.submit(run_cases, cases[:batch], work)
     ck.run_witnesses(["w10", "w19"])
-    ck.prove(extra_targets=["Bridge/BridgeMigration.v"],
-             gen_kernels=["migration_loop", "migration_names", "migration_init"])
+    ck.prove(extra_targets=["Bridge/BridgeMigration.v", "Bridge/BridgePeeweeOpen.v"],
+             gen_kernels=["migration_loop", "migration_names", "migration_init",
+                          "peewee_open_decl", "peewee_open_tables", "peewee_open_init", "peewee_open_auto_migrate"])
     have_driver = ck.driver()
     first_bad, first_size = None, None
     for lo in range(0, len(cases), batch):
@@ -1510,14 +1511,17 @@ def main(argv=None):
                       "statements of sqlite.py/peewee.py as in Model/SqliteStore.v, Model/PeeweeStore.v; peewee's ORDER BY "
                       "timestamp DESC tie order; file-system listing")
     ck.trusted.append("tie B: translate/py2v.py + translate/k_migration.py (fail-closed reading of migration.py, "
-                      "SqliteStorage.__init__/create_bucket, PeeweeStorage.__init__); Bridge/BridgeMigration.v by reflexivity")
+                      "SqliteStorage.__init__/create_bucket, PeeweeStorage.__init__, auto_migrate, the peewee model declarations); "
+                      "Bridge/BridgeMigration.v, Bridge/BridgePeeweeOpen.v by reflexivity")
     ck.coverage["ties"] = {
         "peewee_v2_to_sqlite_v1 loop (argument binding, limit, id stripping, insert_many)": "A+B",
         "detect_db_files / check_for_migration": "A+B",
         "SqliteStorage.__init__ guard, default file names, commit after migration": "A+B",
         "pw_step / sq_step (the stores themselves)": "A (here and in C02)",
-        "PeeweeStorage.__init__ (create_table, auto_migrate)": "oracle only (SHA-256 + mtime / content dump of the legacy file, "
-                                                              "on files in released and rewritten shapes)"}
+        "PeeweeStorage.__init__ (create_table, auto_migrate)": "B (statement sequence, handle declaration, auto_migrate body, table "
+                                                              "declarations: Bridge/BridgePeeweeOpen.v) + oracle (SHA-256 + mtime / "
+                                                              "content dump of the legacy file, on files in released and rewritten "
+                                                              "shapes); peewee's / SQLite's own behaviour per statement is hand-modelled"}
     return ck.finish(RULE)
 
 
